@@ -48,6 +48,8 @@ Apply(c) ==
        [] c.k = "FabIdx"      -> [plt EXCEPT ![cl].files[c.f][c.pos + 1].idx = c.idx]
        [] c.k = "FabNComp"    -> [plt EXCEPT ![cl].files[c.f][c.pos + 1].nc = @ + c.d]
        [] c.k = "FabBlanks"   -> [plt EXCEPT ![cl].files[c.f][c.pos + 1].canon = FALSE]
+       [] c.k = "HeadCut"     -> [plt EXCEPT ![cl].files[c.f][c.pos + 1] = [@ EXCEPT !.canon = FALSE, !.sh = -1]]
+       [] c.k = "HeadPad"     -> [plt EXCEPT ![cl].files[c.f][c.pos + 1] = [@ EXCEPT !.canon = FALSE, !.sh = 1]]
        [] c.k = "CellHIdx"    -> [plt EXCEPT ![cl].boxlines[c.b].idx = c.idx]
        [] c.k = "DropBoxLine" -> [plt EXCEPT ![cl].boxlines = CutAt(@, c.b - 1, 1)]
        [] c.k = "DropFodLine" -> [plt EXCEPT ![cl].fodlines = CutAt(@, c.b - 1, 1)]
@@ -74,6 +76,11 @@ Candidates ==
                                       : p \in HPos(f)} : f \in ExistingFiles} ELSE {})
   \cup (IF K("FabNComp") THEN UNION {{[k |-> "FabNComp", f |-> f, pos |-> p, d |-> d] : p \in HPos(f), d \in {-1, 1}} : f \in ExistingFiles} ELSE {})
   \cup (IF K("FabBlanks") THEN UNION {{[k |-> "FabBlanks", f |-> f, pos |-> p] : p \in {p \in HPos(f) : Units(f)[p + 1].canon}} : f \in ExistingFiles} ELSE {})
+  \* a few bytes cut from the start of a FAB header line (any header), or ASCII bytes put in front of it (last header of a
+  \* file only: what a seek lands on in front of a later header would be payload bytes the model does not interpret)
+  \cup (IF K("HeadCut") THEN UNION {{[k |-> "HeadCut", f |-> f, pos |-> p] : p \in {p \in HPos(f) : Units(f)[p + 1].sh = 0}} : f \in ExistingFiles} ELSE {})
+  \cup (IF K("HeadPad") THEN UNION {{[k |-> "HeadPad", f |-> f, pos |-> p] :
+                                        p \in {p \in HPos(f) : Units(f)[p + 1].sh = 0 /\ \A q \in HPos(f) : q <= p}} : f \in ExistingFiles} ELSE {})
   \cup (IF K("CellHIdx") THEN UNION {{[k |-> "CellHIdx", b |-> b, idx |-> i] : i \in IdxChoices(Lc.boxlines[b].idx)} : b \in GoodBoxLines} ELSE {})
   \cup (IF K("DropBoxLine") THEN {[k |-> "DropBoxLine", b |-> b] : b \in DOMAIN Lc.boxlines} ELSE {})
   \cup (IF K("DropFodLine") THEN {[k |-> "DropFodLine", b |-> b] : b \in DOMAIN Lc.fodlines} ELSE {})
@@ -166,7 +173,7 @@ Scenario ==
               files |-> [f \in DOMAIN plt[cl].files |->
                            [i \in DOMAIN plt[cl].files[f] |->
                               IF plt[cl].files[f][i].k = "H"
-                              THEN <<plt[cl].files[f][i].idx, plt[cl].files[f][i].nc, plt[cl].files[f][i].canon>>
+                              THEN <<plt[cl].files[f][i].idx, plt[cl].files[f][i].nc, plt[cl].files[f][i].canon, plt[cl].files[f][i].sh>>
                               ELSE 0]]],
    fragile |-> IF ~Damaged(plt, lim) THEN {} ELSE
                (IF \A l \in 1..(lim + 1) : LevelGoodWith(plt[l], FALSE, TRUE, TRUE) THEN {"first-header"} ELSE {}) \cup
